@@ -285,8 +285,12 @@ func RecoverFile(path string, o *opt.Options) (db *DB, err error) {
 
 func recoverTable(s *session, o *opt.Options) error {
 	o = dupOptions(o)
-	// Mask StrictReader, lets StrictRecovery doing its job.
+	// Mask StrictReader, lets StrictRecovery doing its job. A zero value
+	// would mean DefaultStrict, which has StrictReader set.
 	o.Strict &= ^opt.StrictReader
+	if o.Strict == 0 {
+		o.Strict = opt.NoStrict
+	}
 
 	// Get all tables and sort it by file number.
 	fds, err := s.stor.List(storage.TypeTable)
